@@ -109,3 +109,5 @@ def run(ctx, out, replay=None):
             out.count("kind/" + k)
     fr.run_cases(ctx, out, cases, nc.run_impl, nc.to_coq, oracle, failure_key, HEADER,
                  dist_key=lambda c: c.get("stream", "?"), nontrivial=nontrivial, shard=100, shrink=nc.shrink)
+    for f in out.failures:      # a shrunk input is filed under the failure it shows
+        f["key"] = failure_key(None, f.get("why"))
